@@ -162,12 +162,16 @@ theorem cstep_inv (s s' : Ctl) (a : Act) (h : CInv s) (hs : cstep s a = some s')
     · rename_i d hco
       split at hs
       · cases hs
-      · cases hs
-        refine CInv.mk (?_) (⟨t, hpf⟩) (by intro hh; cases hh) (by intro d' hc; cases hc) (hlk) (by intro _; rfl)
-        intro hd
-        have := hst hd
-        simp only [inflight, hco] at this
-        simp [enq, inflight, flatten_sliceup, ← this, List.append_assoc]
+      · split at hs
+        · rename_i hdisc
+          cases hs
+          exact CInv.mk (by intro hd; simp [hdisc] at hd) (⟨t, hpf⟩) (hfl) (by intro d' hc; cases hc) (hlk) (hbz)
+        · cases hs
+          refine CInv.mk (?_) (⟨t, hpf⟩) (by intro hh; cases hh) (by intro d' hc; cases hc) (hlk) (by intro _; rfl)
+          intro hd
+          have := hst hd
+          simp only [inflight, hco] at this
+          simp [enq, inflight, flatten_sliceup, ← this, List.append_assoc]
     · cases hs
   | senderBegin =>
     simp only [cstep] at hs
@@ -282,5 +286,95 @@ theorem crun_inv (acts : List Act) : ∀ (s : Ctl), CInv s → CInv (crun s acts
     cases hs : cstep s a with
     | none => simpa using ih s h
     | some s' => simpa using ih s' (cstep_inv s s' a h hs)
+
+/-- second invariant (needs repair C20-R1): a disconnected connection has nothing queued for the sender thread and no
+`sock.send` has ever been attempted on it after the disconnect -/
+structure NoAtt (s : Ctl) : Prop where
+  empty : s.disc = true → s.pending = []
+  quiet : s.offeredAfterDisc = 0
+
+theorem cinit_noatt (pb : Nat) : NoAtt { pb := pb } := NoAtt.mk (by intro h; cases h) (rfl)
+
+theorem cstep_noatt (s s' : Ctl) (a : Act) (h : CInv s) (n : NoAtt s) (hs : cstep s a = some s') : NoAtt s' := by
+  obtain ⟨hem, hno⟩ := n
+  cases a with
+  | coopCheck d =>
+    simp only [cstep] at hs
+    split at hs
+    · cases hs
+    · split at hs <;> (cases hs; first | exact ⟨hem, hno⟩ | exact ⟨by intro hd; simp at hd, hno⟩)
+  | coopGo o =>
+    simp only [cstep] at hs
+    split at hs
+    · cases hs; first | exact ⟨hem, hno⟩ | exact ⟨by intro hd; simp at hd, hno⟩
+    · rename_i d hco
+      obtain ⟨hp0, hd0⟩ := h.direct d hco
+      simp only [hd0, Bool.false_eq_true, if_false] at hs
+      cases o with
+      | again => simp only [] at hs; cases hs; first | exact ⟨hem, hno⟩ | exact ⟨by intro hd; simp at hd, hno⟩
+      | fatal => simp only [] at hs; cases hs; exact ⟨fun _ => hp0, hno⟩
+      | accept k =>
+        simp only [] at hs
+        split at hs <;> (cases hs; first | exact ⟨hem, hno⟩ | exact ⟨by intro hd; simp at hd, hno⟩)
+    · cases hs
+  | coopEnq =>
+    simp only [cstep] at hs
+    split at hs
+    · split at hs
+      · cases hs
+      · split at hs
+        · cases hs; first | exact ⟨hem, hno⟩ | exact ⟨by intro hd; simp at hd, hno⟩
+        · rename_i hdisc
+          cases hs
+          exact ⟨by intro hd; simp [enq] at hd; exact absurd hd hdisc, hno⟩
+    · cases hs
+  | senderBegin =>
+    simp only [cstep] at hs
+    split at hs
+    · cases hs; first | exact ⟨hem, hno⟩ | exact ⟨by intro hd; simp at hd, hno⟩
+    · cases hs
+  | senderSend o =>
+    simp only [cstep] at hs
+    split at hs
+    · cases hs
+    · split at hs
+      · cases hs; first | exact ⟨hem, hno⟩ | exact ⟨by intro hd; simp at hd, hno⟩
+      · rename_i d rest hpend
+        have hd0 : s.disc = false := by
+          cases hd : s.disc with
+          | false => rfl
+          | true => have := hem hd; rw [hpend] at this; cases this
+        simp only [hd0, Bool.false_eq_true, if_false] at hs
+        cases o with
+        | again => simp only [] at hs; cases hs; first | exact ⟨hem, hno⟩ | exact ⟨by intro hd; simp at hd, hno⟩
+        | fatal => simp only [] at hs; cases hs; exact ⟨fun _ => rfl, hno⟩
+        | accept k =>
+          simp only [] at hs
+          split at hs <;> (cases hs; exact ⟨by intro hd; simp at hd, hno⟩)
+  | senderFinish =>
+    simp only [cstep] at hs
+    split at hs
+    · cases hs
+    · split at hs <;> (cases hs; first | exact ⟨hem, hno⟩ | exact ⟨by intro hd; simp at hd, hno⟩)
+  | envEnq =>
+    simp only [cstep] at hs
+    split at hs
+    · cases hs
+    · cases hs; first | exact ⟨hem, hno⟩ | exact ⟨by intro hd; simp at hd, hno⟩
+  | envDone reset =>
+    simp only [cstep] at hs
+    split at hs
+    · cases hs
+    · split at hs <;> (cases hs; first | exact ⟨hem, hno⟩ | exact ⟨by intro hd; simp at hd, hno⟩)
+
+theorem crun_noatt (acts : List Act) : ∀ (s : Ctl), CInv s → NoAtt s → NoAtt (crun s acts) := by
+  induction acts with
+  | nil => intro s _ n; exact n
+  | cons a as ih =>
+    intro s h n
+    simp only [crun]
+    cases hs : cstep s a with
+    | none => simpa using ih s h n
+    | some s' => simpa using ih s' (cstep_inv s s' a h hs) (cstep_noatt s s' a h n hs)
 
 end Pox.SendPath
